@@ -171,6 +171,7 @@ class World:
         from django_components.library import mark_protected_tags
         import django_components.component_registry as cr
         self._cr = cr
+        self._mark = mark_protected_tags
         self._n0 = len(cr.all_registries)
         self.libs, self.orig = [], []
         for builtins, prot in libspecs:
@@ -203,6 +204,9 @@ class World:
                 v = r.unregister(o[1])
             elif o[0] == "clear":
                 v = r.clear()
+            elif o[0] == "protect":
+                # mark_protected_tags on the registry's own Library, in the middle of the history
+                v = self._mark(self.libs[self.reglib[i]], None if o[1] == "default" else list(o[1]))
             elif o[0] == "get":
                 v = r.get(o[1])
                 k = cls_index(v)
@@ -243,14 +247,22 @@ class World:
 # one call + the direct oracle.  `st` is the oracle's own state for the history so far: the plain dictionaries of the
 # property statement (one per registry), the previous tag tables, and what the history has exercised.
 # ---------------------------------------------------------------------------------------------
-def new_state(w):
-    return {"ref": [dict() for _ in w.regs], "prev": [w.snapshot(li) for li in range(len(w.libs))],
-            "added": False, "removed": False, "err": False, "shared": False}
+def new_state(w, libspecs):
+    prot = [tuple(prot_list(p)) for _, p in libspecs]
+    snaps = [w.snapshot(li) for li in range(len(w.libs))]
+    return {"ref": [dict() for _ in w.regs], "prev": snaps,
+            # the protected list of every library as it is NOW, and for every tag in it the status of its library entry when
+            # it became protected (None absent / True the pre-existing function / False a component tag function)
+            "prot": prot, "guard": [{t: snaps[li].get(t) for t in prot[li]} for li in range(len(prot))],
+            # tags that were marked protected while a registered component used them (statement silent: never an alarm)
+            "tainted": [frozenset() for _ in prot],
+            "added": False, "removed": False, "err": False, "shared": False, "protect": False}
 
 
 def copy_state(st):
     c = dict(st)
     c["ref"] = [dict(d) for d in st["ref"]]
+    c["prot"], c["guard"], c["tainted"] = list(st["prot"]), list(st["guard"]), list(st["tainted"])
     return c
 
 
@@ -314,6 +326,24 @@ def do_step(w, libspecs, st, i, o, oracle, notes):
             what = "clear failed"
         else:
             d.clear()
+    elif o[0] == "protect":
+        li = w.reglib[i]
+        ps = tuple(prot_list(o[1]))
+        st["protect"] = True
+        if res != ("none",):
+            what = "mark_protected_tags failed"
+        else:
+            live = set()
+            for j in range(len(w.regs)):
+                if w.reglib[j] == li:
+                    live.update(w.start_tag(j, n) for n in st["ref"][j])
+            hit = frozenset(t for t in ps if t in live)
+            if hit:
+                notes["tag_marked_protected_while_a_component_uses_it"] += 1
+                st["tainted"][li] = st["tainted"][li] | hit
+            old_guard = st["guard"][li]
+            st["guard"][li] = {t: (old_guard[t] if t in old_guard else before[li].get(t)) for t in ps}
+            st["prot"][li] = ps
     else:
         if not (res[0] == "all" and modhash(res[1]) == modhash(d)):
             what = "all() equals the dictionary"
@@ -336,8 +366,10 @@ def do_step(w, libspecs, st, i, o, oracle, notes):
             used.setdefault(w.start_tag(j, n), []).append(n)
         if len(used) < len(st["ref"][j]):
             st["shared"] = True
-        prot = prot_list(libspecs[li][1])
+        prot, tainted = st["prot"][li], st["tainted"][li]
         for t in set(snap) | set(used) | set(orig):
+            if t in tainted:
+                continue            # marked protected while in use: unregister keeps the tag function (reported, never an alarm)
             if t in used and (t not in snap or snap[t]):
                 fails.append(("c15-tag-iff-used", "%r: tag %r is used by %r but %s" % (
                     o, t, used[t], "absent from library.tags" if t not in snap else "still the pre-existing function")))
@@ -346,18 +378,19 @@ def do_step(w, libspecs, st, i, o, oracle, notes):
             if t in orig and snap.get(t) is False and t not in used:
                 fails.append(("c15-tag-iff-used", "%r: tag %r (pre-existing, overwritten by a component tag) is still a component tag "
                                                   "function although no registered component uses it" % (o, t)))
-            if t in orig:
-                if t in prot:
-                    if snap.get(t) is not True:
-                        fails.append(("c15-protected-touched", "%r: protected tag %r was %s" % (
-                            o, t, "removed" if t not in snap else "overwritten")))
-                else:
-                    # allowed by the statement (it protects PROTECTED tags): counted for the evidence, never an alarm
-                    b, a = before[li].get(t), snap.get(t)
-                    if b is True and a is False:
-                        notes["unprotected_preexisting_tag_overwritten"] += 1
-                    if b is not None and a is None:
-                        notes["unprotected_preexisting_tag_removed_on_unregister"] += 1
+            if t in orig and t not in prot:
+                # allowed by the statement (it protects PROTECTED tags): counted for the evidence, never an alarm
+                b, a = before[li].get(t), snap.get(t)
+                if b is True and a is False:
+                    notes["unprotected_preexisting_tag_overwritten"] += 1
+                if b is not None and a is None:
+                    notes["unprotected_preexisting_tag_removed_on_unregister"] += 1
+        # a tag that is in the protected list NOW keeps the library entry it had when it became protected (at creation of the
+        # Library or at a later mark_protected_tags call): neither overwritten nor removed
+        for t, status in st["guard"][li].items():
+            if status is not None and snap.get(t) != status:
+                fails.append(("c15-protected-touched", "%r: protected tag %r was %s" % (
+                    o, t, "removed" if t not in snap else "overwritten")))
     return res, alls, snaps, fails
 
 
@@ -366,7 +399,7 @@ def run_case(libspecs, regspecs, ops, oracle=True, notes=None):
     notes = collections.Counter() if notes is None else notes
     w = World(libspecs, regspecs)
     try:
-        st = new_state(w)
+        st = new_state(w, libspecs)
         obs, fails = [], []
         for step, (i, o) in enumerate(ops):
             res, alls, snaps, fl = do_step(w, libspecs, st, i, o, oracle, notes)
@@ -467,6 +500,8 @@ def op_term(i, o):
         body = "OGet %s" % istr(o[1])
     elif o[0] == "clear":
         body = "OClear"
+    elif o[0] == "protect":
+        body = "OProtect %s" % clist([istr(t) for t in prot_list(o[1])])
     else:
         body = "OAll"
     return I.get("o", "wop", "WOp %d (%s)" % (i, body))
@@ -573,16 +608,19 @@ def forest_term(kids):
 NAMES3 = ["a", "slot", "fill"]
 
 
-def alphabet(names, nreg=1):
+def alphabet(names, nreg=1, classes=(0, 1, 2), protects=(), get=True):
     ops = []
     for i in range(nreg):
         for n in names:
-            for k in range(3):
+            for k in classes:
                 ops.append((i, ("register", n, k)))
             ops.append((i, ("unregister", n)))
-            ops.append((i, ("get", n)))
+            if get:
+                ops.append((i, ("get", n)))
         ops.append((i, ("clear",)))
         ops.append((i, ("all",)))
+        for ps in protects:
+            ops.append((i, ("protect", ps)))          # mark_protected_tags(registry i's Library, ps)
     return ops
 
 
@@ -717,7 +755,7 @@ def walk_task(task, collect_paths=False):
 
     w0 = World(ls, rs)
     try:
-        st0 = new_state(w0)
+        st0 = new_state(w0, ls)
     finally:
         w0.close()
     forest = rec([], [], st0, (False, False), 0)
@@ -793,7 +831,17 @@ def tree_jobs(thorough):
     else:
         groups.append(("two-private-2names-orbit4", [make_job(TWO[0][0], TWO[0][1], alphabet(["a", "slot"], 2), 4, "two-private-2names-orbit4",
                                                               orbit=True, names_sym=False)]))
-    # 5. OUTSIDE the claimed domain (diagnostic only): two registries sharing one library
+    # 5. mark_protected_tags as a CALL of the history (the protected list of a Library changes after the registry has been used):
+    #    shorthand formatter (tag == name) on a Library that starts unprotected ("protect later") / with ["fill"] ("protect more"),
+    #    default formatter (protecting `component` while components use it = not disciplined: reported, never an alarm)
+    Lp = 5 if thorough else 4
+    ap = alphabet(NAMES3, classes=(0, 1), protects=[(), "default", ("fill",), ("a",)], get=False)
+    apc = alphabet(["a", "slot"], classes=(0, 1), protects=[(), "default", ("component",)], get=False) + [(0, ("get", "a"))]
+    groups.append(("one-protect-exh%d" % Lp, [
+        make_job([(BUILTINS, None)], [(0, ("shorthand", "instance"))], ap, Lp, "one-protect-exh%d" % Lp),
+        make_job([(BUILTINS, ["fill"])], [(0, ("shorthand", "instance"))], ap, Lp, "one-protect-exh%d" % Lp),
+        make_job([(BUILTINS, None)], [(0, ("component", "default"))], apc, Lp, "one-protect-exh%d" % Lp)]))
+    # 6. OUTSIDE the claimed domain (diagnostic only): two registries sharing one library
     groups.append(("two-shared-diagnostic", [make_job(SHARED[0], SHARED[1], alphabet(["a", "slot"], 2), 3, "two-shared-diagnostic", claimed=False)]))
     return groups
 
@@ -817,9 +865,12 @@ def random_cases(chk, thorough):
         ops = []
         for _ in range(rng.randint(7, 40)):
             i = rng.randrange(nreg)
-            kind = rng.choices(["register", "unregister", "get", "clear", "all"], [6, 3, 2, 0.5, 1])[0]
+            kind = rng.choices(["register", "unregister", "get", "clear", "all", "protect"], [6, 3, 2, 0.5, 1, 1])[0]
             if kind in ("clear", "all"):
                 ops.append((i, (kind,)))
+            elif kind == "protect":
+                ops.append((i, ("protect", rng.choice(["default", "default", (), tuple(rng.sample(names, rng.randint(1, 2))),
+                                                       ("fill", "slot"), ("component",), ("x-a", "b")]))))
             elif kind == "register":
                 ops.append((i, ("register", rng.choice(names), rng.randrange(3))))
             else:
@@ -904,6 +955,14 @@ def corpus_cases():
         # tag == name colliding with an unprotected pre-existing tag: overwritten and removed (allowed), protected one refused
         ([(BUILTINS, ["fill"])], [(0, ("shorthand", "instance"))],
          [(0, (R, "component", 0)), (0, (R, "fill", 0)), (0, (U, "component")), (0, (R, "slot", 1)), (0, ("clear",))]),
+        # seed C15c ("protect later" / "protect more"): the protected list of the Library changes after the registry has used it
+        ([(BUILTINS, None)], [(0, ("shorthand", "instance"))],
+         [(0, (R, "card", 0)), (0, ("protect", "default")), (0, (R, "slot", 1)), (0, (U, "slot")), (0, ("clear",)), (0, ("all",))]),
+        ([(BUILTINS, ["fill"])], [(0, ("shorthand", "instance"))],
+         [(0, (R, "card", 0)), (0, (U, "card")), (0, ("protect", ("fill", "slot"))), (0, (R, "slot", 1)), (0, ("clear",))]),
+        # protection lifted again: the name becomes registrable, its pre-existing tag is overwritten and removed (allowed)
+        ([(BUILTINS, "default")], [(0, ("shorthand", "instance"))],
+         [(0, (R, "slot", 0)), (0, ("protect", ())), (0, (R, "slot", 0)), (0, ("protect", "default")), (0, (U, "slot")), (0, (R, "slot", 0))]),
         # keyword / non-ASCII names
         ([(BUILTINS + ["class"], ["class"])], [(0, ("shorthand", "instance"))],
          [(0, (R, "class", 0)), (0, (R, "é", 0)), (0, (R, "a×b", 0)), (0, (R, "None", 1)), (0, (U, "é")), (0, ("all",))]),
@@ -1123,6 +1182,10 @@ def run(tier, seed):
                       "library.tags stay as they are and the STORED OBJECT becomes the new one (get/all return it afterwards) - "
                       "theorem same_hash_reregistration_replaces_object_only, Example same_hash_other_object_replaces_stored_object. "
                       "The direct oracle compares classes by hash; the model comparison is by object.",
+        "protect_while_used": "mark_protected_tags naming the tag of a LIVE component (count: tag_marked_protected_while_a_component_uses_it): "
+                              "unregister then keeps the tag function in the library and a same-class re-registration is refused - the two clauses "
+                              "of the statement pull in opposite directions, so the exists-iff-used clause is not applied to such tags "
+                              "(Example protecting_a_live_tag_leaves_it_behind; theorems about it need `disciplined`).",
         "unprotected_preexisting_tags": "the statement protects PROTECTED tags. A pre-existing tag of a Library that is not in its protected "
                                         "list (no mark_protected_tags, or a custom list) is overwritten by a component whose tag collides with it "
                                         "(shorthand formatter: tag == component name) and removed from library.tags when the last such component "
@@ -1138,7 +1201,8 @@ def run(tier, seed):
         chk.disagree("valid_tag matcher != InternalTagFormatter._validate_tag", {"kind": "valid_tag", "tag": vt[i][0], "impl_accepts": vt[i][1]})
     chk.assumptions = [
         "every registry has its own private django.template.Library (two registries on one Library: diagnostic only)",
-        "the tag formatter and the protected-tag list of a registry do not change during a history; formatters are deterministic",
+        "the tag formatter of a registry does not change during a history and is deterministic; the protected list of a Library changes only "
+        "through mark_protected_tags calls, which are part of the histories",
         "a class is identified by _class_hash (its import path) as in the code: another class object with the same hash is the same "
         "class (accepted on re-registration; the stored object is replaced by it); the model uses injective codes for hashes",
         "code points >= 128 in tags: the model reads which ones TAG_RE accepts from a table probed from the compiled TAG_RE on every run "
@@ -1161,16 +1225,23 @@ def run(tier, seed):
              "members of an orbit apart is NOT assumed up to length %d, where all of them are run. 8 further configurations (custom protected "
              "list, user-defined formatter, empty library, invalid ComponentFormatter tag, keyword / non-ASCII / non-word names, tag == name "
              "colliding with an unprotected pre-existing tag next to a protected one, protected tag absent from the library): all histories of length %d. Two registries on two private "
-             "libraries, 34 calls: all interleavings of length 3 (2 configurations); length 4: %s. Histories are produced and "
+             "libraries, 34 calls: all interleavings of length 3 (2 configurations); length 4: %s. mark_protected_tags(library, ..) as a CALL of "
+             "the history (the protected list changes after the registry has used the Library; model: OProtect): all histories of length %d over "
+             "{register x (a, slot, fill) x (K0, K1), unregister, clear, all, protect [] / PROTECTED_TAGS / [fill] / [a]} = 15 calls, shorthand "
+             "formatter, Library starting unprotected and with [fill]; and over 12 calls (protect [] / PROTECTED_TAGS / [component]) with the "
+             "default formatter. A tag keeps the library entry it had when it became protected for as long as it stays in the list (oracle "
+             "c15-protected-touched; theorem protected_never_touched); tags marked protected WHILE a component uses them are exempt from the "
+             "exists-iff-used clause (statement silent, counted in reported_not_alarmed). Histories are produced and "
              "compared as trees (a node = one call + result + all() of every registry + tag table of every library; theorem "
-             "tree_check_is_per_history_check). Seeded random histories of 7..40 calls over 1-3 registries, 31 names (invalid, newline, protected, "
-             "prefixed, keywords, code points >= 128) and 8 formatters. evaluations = maximal histories (+ corpus, + tag strings). "
+             "tree_check_is_per_history_check). Seeded random histories of 7..40 calls (incl. protect calls) over 1-3 registries, 31 names (invalid, "
+             "newline, protected, prefixed, keywords, code points >= 128) and 8 formatters. evaluations = maximal histories (+ corpus, + tag strings). "
              "Non-trivial = a tag was added to and removed from library.tags and (an exception was raised or two registered names shared a "
              "tag). Distinct = distinct (configuration, history)."
              % (Lf, Lf, Lo, "shorthand+protected and default+unprotected" if thorough else "shorthand formatter + protected tags only",
                 Lf, 4 if thorough else 3,
                 "one interleaving per orbit of G over the 34 calls, both configurations" if thorough else
-                "over 2 names (a, slot; 24 calls), one interleaving per orbit of K1<->K1b, 1 configuration"),
+                "over 2 names (a, slot; 24 calls), one interleaving per orbit of K1<->K1b, 1 configuration",
+                Lf),
         explanation="theorems of Props/C15.v re-checked by coqc; after EVERY call the result, all() of every registry and the tag table of every "
                     "Library (incl. whether each pre-existing tag still is the original function) are compared with an independent dict "
                     "reference + tag-iff-used / protected-untouched predicates (direct oracle; classes compared by _class_hash) and with the Coq "
